@@ -436,7 +436,10 @@ def body_timed_pt(case, ctx):
     # (cycles faster than the clock's tick are grouped as if they took 10 ms: up to 200 of them per group)
     # (groups are sized for what is left of the budget: one cycle of overshoot - or, when cycles are faster than the clock's tick and
     # counted as 10 ms each, as much again as the 2-second group they are fitted into)
-    allowance = 1.05 * max(cycle, (min(2.0, budget) if clock.resolution and cycle < 2 * clock.resolution else 0.0)) + cycle + 4 * clock.resolution + 8 * np.spacing(clock.t)
+    # (in general: the cycle time is measured once, on the first cycle, by a clock that ticks: it can come out a tick short - or as zero,
+    # then counted as 10 ms - and a group planned with it runs longer by that factor; seen at VERIF_SEED=9 with cycles of 2.7 ticks)
+    measured_min = max(cycle - clock.resolution, 1e-2) if clock.resolution else cycle
+    allowance = 1.05 * max(cycle, min(2.0, budget) * (cycle / measured_min - 1.0)) + cycle + 4 * clock.resolution + 8 * np.spacing(clock.t)
     if elapsed - budget > allowance:
         raise Violation("timed-overshoot:tempering", f"budget {budget:.4g} s, ran {elapsed:.4g} s ({taken[0]} steps of {cost:.3g} s, swap_interval {si})")
     lens = [int(c.chain_length) for c in out]
